@@ -195,6 +195,8 @@ fn batch(args: &Args) -> i32 {
     let budget_s = args.u64("budget-s", 0);
     let base = scratch_base(args);
     let next = AtomicU64::new(from);
+    let seeds_done = AtomicU64::new(0);
+    let out_of_time = AtomicBool::new(false);
     let stop = AtomicBool::new(false);
     let agg = Mutex::new(Agg::default());
     let t0 = std::time::Instant::now();
@@ -202,6 +204,7 @@ fn batch(args: &Args) -> i32 {
     std::thread::scope(|sc| {
         for ti in 0..threads {
             let (next, stop, agg, known, base, engine, prop) = (&next, &stop, &agg, &known, &base, &engine, &prop);
+            let (seeds_done, out_of_time) = (&seeds_done, &out_of_time);
             sc.spawn(move || {
                 let mut local = Agg::default();
                 #[cfg(feature = "pm")]
@@ -211,6 +214,10 @@ fn batch(args: &Args) -> i32 {
                         break;
                     }
                     if budget_s > 0 && t0.elapsed().as_secs() >= budget_s {
+                        // wall-clock cap per batch: stop starting new seeds, report what was done
+                        if next.load(Ordering::Relaxed) < to {
+                            out_of_time.store(true, Ordering::Relaxed);
+                        }
                         break;
                     }
                     let i = next.fetch_add(1, Ordering::Relaxed);
@@ -239,6 +246,7 @@ fn batch(args: &Args) -> i32 {
                             break;
                         }
                     }
+                    seeds_done.fetch_add(1, Ordering::Relaxed);
                     if local.violations.len() as u64 >= max_viol || !local.harness_errors.is_empty() {
                         stop.store(true, Ordering::Relaxed);
                     }
@@ -271,6 +279,8 @@ fn batch(args: &Args) -> i32 {
         "seed": seed,
         "from": from,
         "to": to,
+        "seeds_done": seeds_done.load(Ordering::Relaxed),
+        "stopped_by_time_budget": out_of_time.load(Ordering::Relaxed),
         "runs": a.runs,
         "steps": a.steps,
         "counters": a.counters.to_json(),
